@@ -61,6 +61,8 @@ func menu() []reload {
 		{Name: "D", Cfg: srv.Cfg{Services: []srv.Svc{svc([]srv.Key{kB, {ID: "d", Cipher: "aes-192-gcm", Secret: "s-b"}}, tcp("127.0.0.1:9000"), udp("127.0.0.1:9000"))}}, OK: true},
 		// the secret of ID "a" rotated (same ID and cipher, new secret): the old secret is out
 		{Name: "R", Cfg: srv.Cfg{Services: []srv.Svc{svc([]srv.Key{{ID: "a", Cipher: kA.Cipher, Secret: "s-a-second"}, kB}, tcp("127.0.0.1:9000"), udp("127.0.0.1:9000"))}}, OK: true},
+		// a valid configuration with nothing in it: everything stops
+		{Name: "empty", Cfg: srv.Cfg{Raw: "services: []\n"}, OK: true},
 		{Name: "missing", Cfg: srv.Cfg{Missing: true}},
 		{Name: "malformed", Cfg: srv.Cfg{Raw: "services:\n  - listeners: [\n"}},
 		{Name: "bad-type", Cfg: srv.Cfg{Services: []srv.Svc{svc([]srv.Key{kA}, srv.Ln{Type: "quic", Addr: "127.0.0.1:9000"})}}},
